@@ -280,6 +280,7 @@ pub uninterp spec fn dec16(s: Seq<u8>) -> Seq<char>;
 // TRUSTED: A-enc (as in unit xlsbrec) -- `Encoding::decode` decodes "with BOM sniffing": an input that starts with the BOM of UTF-8,
 // UTF-16LE or UTF-16BE loses it and is decoded in the BOM's encoding; `dec_sniffed` stands for that result (uninterpreted)
 pub uninterp spec fn dec_sniffed(s: Seq<u8>) -> Seq<char>;
+#[verifier::opaque]   // never unfolded here: only "the same bytes have the same answer" is used
 pub open spec fn has_bom(s: Seq<u8>) -> bool {
     (s.len() >= 2 && s[0] == 0xFF && s[1] == 0xFE) || (s.len() >= 2 && s[0] == 0xFE && s[1] == 0xFF)
     || (s.len() >= 3 && s[0] == 0xEF && s[1] == 0xBB && s[2] == 0xBF)
@@ -586,6 +587,8 @@ proof fn lemma_bundle_arm(pl: Seq<u8>, rl32: int, relid_bytes: Seq<u8>, hs: int,
             &&& hs == le32(pl.subrange(0, 4))
             &&& name_sub.len() >= 4 + 2 * le32(name_sub)
             &&& ws_text(pl, ws_end(pl, 8)) == dec16(name_sub.subrange(4, 4 + 2 * le32(name_sub)))
+            &&& ws_clean(pl, 8) == !has_bom(relid_bytes)
+            &&& ws_clean(pl, ws_end(pl, 8)) == !has_bom(name_sub.subrange(4, 4 + 2 * le32(name_sub)))
         },
 {
     if pl.len() >= 12 && ws_ok(pl, 8) && ws_ok(pl, ws_end(pl, 8)) {
@@ -607,6 +610,7 @@ proof fn lemma_name_arm(pl: Seq<u8>, b: Seq<u8>, name_sub: Seq<u8>, str_len: int
         name_wf(pl) ==> {
             &&& name_sub.len() >= 4 + 2 * le32(name_sub)
             &&& ws_text(pl, 9) == dec16(name_sub.subrange(4, 4 + 2 * le32(name_sub)))
+            &&& ws_clean(pl, 9) == !has_bom(name_sub.subrange(4, 4 + 2 * le32(name_sub)))
             &&& rgce == name_rgce(pl)
         },
 {
@@ -1241,7 +1245,7 @@ pub open spec fn strs(v: Seq<String>) -> Seq<Seq<char>> { v.map_values(|s: Strin
                         proof {
                             axiom_cow_str();
                             let p = rec_payload(f->at);
-                            if f is Found && p.len() >= 2 && ws_ok(p, 2) {
+                            if f is Found && p.len() >= 2 && ws_ok(p, 2) && ws_clean(p, 2) {
                                 lemma_ws_buf(buf@, p, 2);
                                 assert(buf@.subrange(0, p.len() as int)[0] == buf@[0] && buf@.subrange(0, p.len() as int)[1] == buf@[1]);
                                 // BrtFmt: the format id and its format string
